@@ -33,6 +33,7 @@ type c18World struct {
 	c             *chain.Chain
 	f             *chain.Fork
 	accs          []chain.Account
+	extra         []string // further valid recipient addresses (no key: they never sign)
 	trace         []string
 	inbox         map[string]c18Note // id -> note
 	blocked       map[string]bool    // owner|sender
@@ -59,7 +60,8 @@ func (w *c18World) invariant() (string, string) {
 	k := w.c.App.NotificationsKeeper
 	ctx := sdk.WrapSDKContext(w.f.Ctx)
 	union := map[string]c18Note{}
-	for _, a := range w.accs {
+	for _, addr := range w.recipients() {
+		a := struct{ Bech string }{addr}
 		r, err := k.AllNotificationsByAddress(ctx, &notiftypes.QueryAllNotificationsByAddress{To: a.Bech, Pagination: &query.PageRequest{Limit: 100000}})
 		if err != nil {
 			return "C18/query-error", err.Error()
@@ -182,12 +184,64 @@ func (w *c18World) blockAs(owner chain.Account, spelled string, targets []string
 	}
 }
 
+// prefixExtended returns a valid 32-byte address (the length of module-derived and contract
+// addresses) whose bech32 string begins with the complete bech32 string of a: the 38 data
+// and checksum characters of a are the first 190 bits of the longer address.
+func prefixExtended(a chain.Account) string {
+	const charset = "qpzry9x8gf2tvdw0s3jn54khce6mua7l"
+	body := a.Bech[strings.LastIndex(a.Bech, "1")+1:]
+	var bits []byte
+	for _, ch := range body {
+		v := strings.IndexRune(charset, ch)
+		if v < 0 {
+			panic("not a bech32 character: " + string(ch))
+		}
+		for b := 4; b >= 0; b-- {
+			bits = append(bits, byte(v>>uint(b))&1)
+		}
+	}
+	for len(bits) < 256 {
+		bits = append(bits, 0)
+	}
+	raw := make([]byte, 32)
+	for i, b := range bits[:256] {
+		raw[i/8] |= b << uint(7-i%8)
+	}
+	long := sdk.AccAddress(raw).String()
+	if !strings.HasPrefix(long, a.Bech) || long == a.Bech {
+		panic(fmt.Sprintf("prefix construction failed: %s vs %s", long, a.Bech))
+	}
+	if _, err := sdk.AccAddressFromBech32(long); err != nil {
+		panic(err)
+	}
+	return long
+}
+
 func newC18World(c *chain.Chain) *c18World {
 	w := &c18World{c: c, f: c.Fork(5, chain.GenesisTime.Add(time.Minute)), inbox: map[string]c18Note{}, blocked: map[string]bool{}, nameOwner: map[string]string{}}
 	for i := 0; i < 4; i++ {
 		w.accs = append(w.accs, chain.Acc(i))
 	}
+	// recipients nobody holds a key for: a 32-byte address that textually extends acc0's, and a 32-byte module-style address
+	w.extra = []string{prefixExtended(w.accs[0]), sdk.AccAddress(bytes32(0xA7)).String()}
 	return w
+}
+
+func bytes32(b byte) []byte {
+	out := make([]byte, 32)
+	for i := range out {
+		out[i] = b + byte(i)
+	}
+	return out
+}
+
+// recipients are all the addresses whose inbox is read back.
+func (w *c18World) recipients() []string {
+	var out []string
+	for _, a := range w.accs {
+		out = append(out, a.Bech)
+	}
+	return append(out, w.extra...)
 }
 
 func (w *c18World) syncNames() {
@@ -247,8 +301,11 @@ func TestC18(t *testing.T) {
 			case 3:
 				return rapid.SampledFrom([]string{"nobody.jkl", "", "x", "jkl1notanaddress", "INBOX.jkl"}).Draw(rt, "oddTarget")
 			}
-			if rapid.IntRange(0, 7).Draw(rt, "upperCase") == 0 {
+			switch rapid.IntRange(0, 7).Draw(rt, "upperCase") {
+			case 0:
 				return strings.ToUpper(drawAcc(rt, "to").Bech) // another valid spelling of the same account
+			case 1:
+				return w.extra[rapid.IntRange(0, len(w.extra)-1).Draw(rt, "keyless")] // 32-byte addresses, one textually extending acc0's
 			}
 			return drawAcc(rt, "to").Bech
 		}
